@@ -22,6 +22,7 @@ RULE = (
     "(Engine.functions), alone or nested in/around portable functions: construction may refuse it (EngineError) "
     "but whatever it accepts has to execute. "
     "  15 % of the cases span the SQL engine and two iteration engines (transfers, materializations, transfers into SQL used directly as chain operands): they are processed by a real Processor and executed in their final engine, twice. "
+    "  3 % directed cases use two key columns whose qualified names are 87 and 92 characters long and share their first 72 characters. "
 )
 ASSUMPTIONS = [
     "SQLite 3 stands in for 'the target database'; no grammar shim is installed for this check",
@@ -29,7 +30,7 @@ ASSUMPTIONS = [
     "compound Select AND the same tree to execute under the shim; KF-iteration-join needs a Join node in an iteration "
     "engine AND the exact documented EngineError",
 ]
-MIN_OBS = {"executed_ok": 500, "multi_engine_executed_ok": 200, "sql_executed_ok": 200, "iteration_executed_ok": 200, "with_binary": 150}
+MIN_OBS = {"executed_ok": 500, "long_column_name_cases_executed": 100, "multi_engine_executed_ok": 200, "sql_executed_ok": 200, "iteration_executed_ok": 200, "with_binary": 150}
 CASE_TIMEOUT = 60
 
 
@@ -57,6 +58,25 @@ def gen_case(rng, tier):
             state = ((["chain", st[0], other[0]] if rng.random() < 0.5 else ["chain", other[0], st[0]]), st[1], "sql") if rng.random() < 0.7 else st
         case = gen.case_from(g, state)
         case["engine"] = "multi"
+        return case
+    if rng.random() < 0.03:
+        # directed: columns with long names that share a long prefix (whatever an engine does to make
+        # identifiers fit must keep them apart), in either engine
+        eng = rng.choice(["sql", "sql", "it"])
+        cfg = gen.Cfg(engines=(eng,), special_leaves=False, raw_leaves=False, leaf_cols="pq", nonkeys=False, ops=("proj", "sel", "dedup", "sort", "slice", "chain", "join") if eng == "sql" else ("proj", "sel", "dedup", "sort", "slice", "chain"), max_depth=1)
+        g = gen.Gen(rng, cfg)
+        st = g.leaf(eng, want_cols=["p", "q"], allow_special=False)
+        for _ in range(rng.randint(1, 4)):
+            op = g.pick_op(("sel", "sort", "slice", "dedup", "proj", "sel", "sort"))
+            st = g.unary(st, op) or st
+        if eng == "sql" and st[1] and rng.random() < 0.6:
+            other = g.leaf(eng, want_cols=sorted(st[1])[:1], allow_special=False)
+            st = (["join", st[0], other[0], None, None], st[1] | other[1], eng)
+            for _ in range(rng.randint(0, 2)):
+                st = g.unary(st, g.pick_op(("sel", "sort", "slice"))) or st
+        case = gen.case_from(g, st)
+        case["engine"] = eng
+        case["long_names"] = True
         return case
     if engine == "it":
         cfg = gen.Cfg(engines=("it", "it2"), ops=("calc", "proj", "sel", "dedup", "sort", "slice", "chain", "mat", "join"), xfer_prob=0.05,
@@ -179,7 +199,7 @@ def run_case(case):
                 out["violations"].append({"kind": "compile_raised", "detail": f"{exc_str(exc)} for {label} tree {short(rel, 400)}"})
                 return out
             try:
-                db.fetch(ex, rel.columns)
+                db.fetch(ex, rel.columns, engines["sql"])
             except Exception as exc:  # noqa: BLE001
                 mech = None
                 if has_nested_compound(rel) and "syntax error" in str(exc):
@@ -211,6 +231,8 @@ def run_case(case):
                 out["violations"].append({"kind": "second_iteration_differs", "detail": label})
             c["iteration_executed_ok"] = 1
         c["executed_ok"] = 1
+        if case.get("long_names"):
+            c["long_column_name_cases_executed"] = 1
         nops = sum(1 for s in model.subprograms(prog) if s[0] != "leaf")
         if nops >= 2:
             out["sig"] = f"{engine}:{sig}"
